@@ -69,7 +69,7 @@ func actKind(a string) string {
 
 func checkC06(c *Ctx) {
 	r := c.R
-	r.Explanation = "Decides the grouping clause exhaustively for the operator set on the LALR automaton regenerated from pkg/parser/gram.y (goyacc -v), after proving that the committed gram_y.go is token-for-token the parser generated from that grammar: (1) precedence/associativity matrix: for every binary operator T1 the state holding the completed item `expr T1 SPACE_EOLS expr .` must reduce on look-ahead T2 iff prec(T1)>prec(T2) or equal and left-associative, per reference/precedence.json (spec §Operator); unary states reduce before every binary operator; assignment rows shift on every binary operator; 0 conflicts. (2) tree construction: the grammar action-flow composed with the SSA field provenance of each parser constructor gives, per production, which RHS symbol lands in which AST field; binary/unary/paren/slice/for/index/call shapes are compared with the operand layout the production's own shape prescribes; every node-valued RHS symbol must reach the result. (3) layout: every infix operator, COMMA, COLON and opening bracket in a right-hand side is followed by the nullable SPACE_EOLS, no action reads a layout symbol, the lexer never emits SPACE and parser.Lex skips COMMENT. Not decided: nothing value-level is involved; index/attr/call chains are covered by action-flow only."
+	r.Explanation = "Decides the grouping clause exhaustively for the operator set on the LALR automaton regenerated from pkg/parser/gram.y (goyacc -v), after proving that the committed gram_y.go is token-for-token the parser generated from that grammar: (1) precedence/associativity matrix: for every binary operator T1 the state holding the completed item `expr T1 SPACE_EOLS expr .` must reduce on look-ahead T2 iff prec(T1)>prec(T2) or equal and left-associative, per reference/precedence.json (spec §Operator); unary states reduce before every binary operator; assignment rows shift on every binary operator; 0 conflicts. (2) tree construction: the grammar action-flow composed with the SSA field provenance of each parser constructor gives, per production, which RHS symbol lands in which AST field; binary/unary/paren/slice/for/index/call shapes are compared with the operand layout the production's own shape prescribes; every node-valued RHS symbol must reach the result. (3) layout: every infix operator, COMMA, COLON and opening bracket in a right-hand side is followed by the nullable SPACE_EOLS, no action reads a layout symbol, the lexer never emits SPACE and parser.Lex skips COMMENT. (4) CTOR-TOTAL: the binary-expression constructor, specialised with symbolic operands, builds no node only for an operand that is already nil or for `/`, `%` with a literal zero as the right operand — every other well-formed operand pair yields the tree. Not decided: nothing value-level is involved; index/attr/call chains are covered by action-flow only."
 	r.Trusted = []string{"goyacc (golang.org/x/tools v0.29.0) LALR construction and its y.output listing", "the goyacc-generated driver yyParserImpl.Parse"}
 	g := c.requireGram()
 	if g == nil {
@@ -201,6 +201,10 @@ func checkC06(c *Ctx) {
 	treeFlowRules(c, g, &ref, "TREE-FLOW")
 	// ---- layout
 	layoutRules(c, g, &ref)
+	// ---- constructors refuse nothing but a literal zero divisor (shared with C02 FOLD)
+	if n := arithRejectRule(c, "CTOR-TOTAL"); n < 1 {
+		r.FloorN("parse-time rejections in newArithmeticExpr", n, 1)
+	}
 }
 
 // treeFlowRules checks, per production, that RHS symbols land in the AST fields their position prescribes.
@@ -597,43 +601,54 @@ func lexRulesLayout(c *Ctx) {
 		return
 	}
 	ok := false
-	for _, l := range naturalLoops(lex) {
-		hasNext := false
-		for b := range l.Blocks {
-			for _, in := range b.Instrs {
-				if isCallTo(in, pParser, "Lexer.NextItem") {
-					hasNext = true
-				}
+	// the token loop may sit in Lex or in a same-package helper Lex calls to fetch the next token
+	lexFns := []*ssa.Function{lex}
+	allInstrs(lex, func(in ssa.Instruction) {
+		if call, isC := in.(*ssa.Call); isC {
+			if h := call.Call.StaticCallee(); h != nil && h.Pkg == lex.Pkg && len(h.Blocks) > 0 && h != lex {
+				lexFns = append(lexFns, h)
 			}
 		}
-		if !hasNext {
-			continue
-		}
-		// every edge leaving the loop must be the `typ != COMMENT` edge
-		exits, good := 0, 0
-		for b := range l.Blocks {
-			for si, sc := range b.Succs {
-				if l.Blocks[sc] {
-					continue
-				}
-				exits++
-				iff, isIf := b.Instrs[len(b.Instrs)-1].(*ssa.If)
-				if !isIf {
-					continue
-				}
-				bo, isB := iff.Cond.(*ssa.BinOp)
-				if !isB {
-					continue
-				}
-				if v, isC := constInt(bo.Y); isC && v == commentV {
-					if (bo.Op.String() == "!=" && si == 0) || (bo.Op.String() == "==" && si == 1) {
-						good++
+	})
+	for _, lex := range lexFns {
+		for _, l := range naturalLoops(lex) {
+			hasNext := false
+			for b := range l.Blocks {
+				for _, in := range b.Instrs {
+					if isCallTo(in, pParser, "Lexer.NextItem") {
+						hasNext = true
 					}
 				}
 			}
-		}
-		if exits > 0 && exits == good {
-			ok = true
+			if !hasNext {
+				continue
+			}
+			// every edge leaving the loop must be the `typ != COMMENT` edge
+			exits, good := 0, 0
+			for b := range l.Blocks {
+				for si, sc := range b.Succs {
+					if l.Blocks[sc] {
+						continue
+					}
+					exits++
+					iff, isIf := b.Instrs[len(b.Instrs)-1].(*ssa.If)
+					if !isIf {
+						continue
+					}
+					bo, isB := iff.Cond.(*ssa.BinOp)
+					if !isB {
+						continue
+					}
+					if v, isC := constInt(bo.Y); isC && v == commentV {
+						if (bo.Op.String() == "!=" && si == 0) || (bo.Op.String() == "==" && si == 1) {
+							good++
+						}
+					}
+				}
+			}
+			if exits > 0 && exits == good {
+				ok = true
+			}
 		}
 	}
 	lexCommentExtent(c, commentV)
